@@ -136,7 +136,7 @@ func (l *lexer) run() {
 			close(l.done)
 		}
 
-		if e := recover(); e != nil {
+		if e := recover(); e != nil && e != bailout {
 			// re-panic
 			panic(e)
 		}
@@ -1605,8 +1605,7 @@ func (l *lexer) emit(typ int) {
 	select {
 	case l.token <- tok:
 	case <-l.cancel:
-		// bailout
-		panic(nil)
+		panic(bailout)
 	}
 	l.mark(0)
 }
@@ -1689,6 +1688,9 @@ func (l *lexer) error(pos ast.Pos, msg string) {
 		close(l.cancel)
 	}
 }
+
+// bailout is the panic value used to unwind the lexer goroutine.
+var bailout = new(struct{})
 
 type action func() action
 
